@@ -149,3 +149,50 @@ Section NI.
     - fold (shape_es sub). rewrite (IH _ _ _ sub). apply IHes.
   Qed.
 End NI.
+
+(* ---- what the static walkers read (and therefore announce): exactly what their views keep ---- *)
+Section StaticReads.
+  Variable uni_esc uni_alnum : N -> bool.
+  Variable mm : mime_mode.
+
+  Definition sreads (s : sstate) : list bytes := reads (sw s).
+
+  (* add_files: the directory, then every regular file of it that has an extension *)
+  Definition reads_files (dir : bytes) (es : list (bytes * node)) : list bytes :=
+    flat_map (fun '(n, x) => match x with
+                             | File _ => match name_and_ext (dir ++ [47%N] ++ n) with Some _ => [dir ++ [47%N] ++ n] | None => [] end
+                             | Dir _ => [] end) es.
+  Lemma reads_add_file s p c :
+    sreads (add_file uni_esc uni_alnum mm s p c) = sreads s ++ match name_and_ext p with Some _ => [p] | None => [] end.
+  Proof. unfold add_file, sreads. destruct (name_and_ext p); cbn; [reflexivity|now rewrite app_nil_r]. Qed.
+  Theorem reads_add_files s dir es :
+    sreads (add_files uni_esc uni_alnum mm s dir es) = sreads s ++ dir :: reads_files dir es.
+  Proof.
+    unfold add_files. replace (sreads s ++ dir :: reads_files dir es) with (sreads (sannounce s dir) ++ reads_files dir es)
+      by (unfold sreads; cbn; now rewrite <- app_assoc).
+    generalize (sannounce s dir). induction es as [|[n [c|sub]] rest IH]; intros s0; cbn [fold_left reads_files flat_map].
+    - now rewrite app_nil_r.
+    - rewrite IH, reads_add_file. unfold reads_files. now rewrite <- app_assoc.
+    - rewrite IH. reflexivity.
+  Qed.
+
+  (* add_files_as: the directory, every regular file below it and every sub-directory, in walking order *)
+  Fixpoint reads_as (fuel : nat) (dir : bytes) (es : list (bytes * node)) : list bytes :=
+    match fuel with O => [] | S fuel' =>
+      dir :: flat_map (fun '(n, x) => match x with
+                                      | File _ => [dir ++ [47%N] ++ n]
+                                      | Dir sub => reads_as fuel' (dir ++ [47%N] ++ n) sub end) es
+    end.
+  Theorem reads_add_files_as fuel : forall s dir to es,
+    sreads (add_files_as uni_esc uni_alnum mm fuel s dir to es) = sreads s ++ reads_as fuel dir es.
+  Proof.
+    induction fuel as [|fuel IH]; intros s dir to es; cbn [add_files_as reads_as]; [now rewrite app_nil_r|].
+    replace (sreads s ++ dir :: flat_map (fun '(n, x) => match x with File _ => [dir ++ [47%N] ++ n] | Dir sub => reads_as fuel (dir ++ [47%N] ++ n) sub end) es)
+      with (sreads (sannounce s dir) ++ flat_map (fun '(n, x) => match x with File _ => [dir ++ [47%N] ++ n] | Dir sub => reads_as fuel (dir ++ [47%N] ++ n) sub end) es)
+      by (unfold sreads; cbn; now rewrite <- app_assoc).
+    generalize (sannounce s dir). induction es as [|[n [c|sub]] rest IHes]; intros s0; cbn [fold_left flat_map].
+    - now rewrite app_nil_r.
+    - rewrite IHes. unfold add_file_as, sreads. cbn. now rewrite <- app_assoc.
+    - rewrite IHes, IH. now rewrite <- app_assoc.
+  Qed.
+End StaticReads.
